@@ -2,6 +2,9 @@
 
   in : (seq op …)   op ::= (mkworker <bool> szin szout) | (mkfuture szin szout) | (fork n)
                           | (sub s j p i) | (pub p i s k) | (train n tp ti lp li) | (segment h t|none) | (validate h t|none)
+                          | (extend h t|none seg|none x|none) | (copy h t|none) | (trunk seg|none seg|none seg|none)
+                          | (textend (seg seg seg) seg|none seg|none seg|none) | (compose (seg seg seg) …)
+                          seg ::= (h t|none)
      | (seqf op …)  same ops, answers ((res …) (outs regs workers)): all results, final state only
   out: ((res outs regs workers) …) one record per op
 -/
@@ -22,11 +25,13 @@ def errS : Err → String
   | .forkTrain => "fork-train" | .cyclic => "cyclic" | .ambiguous => "ambiguous"
   | .disconnected => "disconnected" | .simpleHead => "simple-head" | .simpleTail => "simple-tail"
   | .futures => "futures" | .recursion => "recursion" | .noNode => "no-node"
+  | .unpack => "unpack" | .noPath => "no-path" | .aliased => "aliased"
 
 def resS : Res → Sexp
   | .ok => .list [.atom "ok"]
   | .node n => .list [.atom "node", Sexp.ofNat n]
   | .err e => .list [.atom "err", .atom (errS e)]
+  | .segs l => .list (.atom "segs" :: l.map (fun p => Sexp.ofNats [p.1, p.2]))
 
 /-- (outs regs workers): what the harness dumps from the real objects after every call -/
 def stateS (g : G) : List Sexp :=
@@ -51,6 +56,19 @@ def optNat? : Sexp → Option (Option Nat)
   | .atom "none" => some none
   | x => x.nat?.map some
 
+/-- a segment description `(h t|none)` -/
+def seg? : Sexp → Option (Nat × Option Nat)
+  | .list [h, t] => do pure (← h.nat?, ← optNat? t)
+  | _ => none
+
+def optSeg? : Sexp → Option (Option (Nat × Option Nat))
+  | .atom "none" => some none
+  | x => (seg? x).map some
+
+def trunk? : Sexp → Option TrunkSpec
+  | .list [a, t, l] => do pure ⟨← seg? a, ← seg? t, ← seg? l⟩
+  | _ => none
+
 def op? : Sexp → Option Op
   | .list [.atom "mkworker", st, i, o] => do pure (.mkWorker (← bool? st) (← i.nat?) (← o.nat?))
   | .list [.atom "mkfuture", i, o] => do pure (.mkFuture (← i.nat?) (← o.nat?))
@@ -61,6 +79,12 @@ def op? : Sexp → Option Op
     pure (.train (← n.nat?) (← tp.nat?) (← ti.nat?) (← lp.nat?) (← li.nat?))
   | .list [.atom "segment", h, t] => do pure (.segment (← h.nat?) (← optNat? t))
   | .list [.atom "validate", h, t] => do pure (.validate (← h.nat?) (← optNat? t))
+  | .list [.atom "extend", h, t, r, x] => do pure (.extend (← h.nat?) (← optNat? t) (← optSeg? r) (← optNat? x))
+  | .list [.atom "copy", h, t] => do pure (.copy (← h.nat?) (← optNat? t))
+  | .list [.atom "trunk", a, t, l] => do pure (.trunk (← optSeg? a) (← optSeg? t) (← optSeg? l))
+  | .list [.atom "textend", b, a, t, l] => do
+    pure (.textend (← trunk? b) (← optSeg? a) (← optSeg? t) (← optSeg? l))
+  | .list (.atom "compose" :: ts) => do pure (.compose (← ts.mapM trunk?))
   | _ => none
 
 def runSeq (g : G) : List Op → List Sexp
